@@ -16,7 +16,8 @@ def run(chk):
         "of its MIR (P-ABS) with every argument at its declared parameter kind; the resulting kind set must contain every Value variant P-RET finds "
         "resolve can produce (objects/arrays as one kind each); in addition, for an argument that resolve (or the helper it is "
         "handed to) matches by variant, the comparison is made per variant: the variants produced when the argument is an X (P-VAR over the matching body) "
-        "must be inside type_def evaluated with that argument typed exactly X. R03h (wrong-typed run-time arguments): the value of a parameter whose declared kind is "
+        "must be inside type_def evaluated with that argument typed exactly X. R02g/R02h (shared with C02): a coercion narrower than the declared parameter kind, or a message error reachable "
+        "while an argument has kind X, requires the type_def evaluated for that argument type to be fallible. R03h (wrong-typed run-time arguments): the value of a parameter whose declared kind is "
         "restricted never reaches a kind-agnostic conversion (Value::to_string_lossy, coerce_to_bytes, Display) — in resolve or in a stdlib helper it is handed "
         "to — on a path without a dominating kind check (try_*/as_*/match on the variant). Undecided: element kinds of returned collections, the "
         "argument-dependent refinement in type_def, semantic correctness.")
@@ -28,6 +29,10 @@ def run(chk):
     sr.rule_restricted_args_checked(chk, "R03h", M)
     rule_type_def_kinds(chk, "R03g", M)
     rule_type_def_per_variant(chk, "R03g", M)
+    # "a call the compiler types as infallible never returns an error" is C03's clause as much as C02's: the two per-function rules are shared
+    import p_c02
+    p_c02.rule_r02g(chk, M)
+    p_c02.rule_r02h(chk, M)
 
 
 VARIANT_BIT = {"Bytes": 1 << 1, "Integer": 1 << 2, "Float": 1 << 3, "Boolean": 1 << 4, "Object": 1 << 5, "Array": 1 << 6, "Timestamp": 1 << 7,
